@@ -124,7 +124,9 @@ func (c *Client) doWithCreds(req *http.Request, count *int, credWrapper creds.Cr
 		return res, errors.New(tr.Tr.Get("failed to redirect request"))
 	}
 
-	return c.doWithAuth("", count, access, redirectedReq, via)
+	// DoWithRedirect only appends to its own copy of "via": record the hop
+	// here so that the limit on the number of redirects is actually reached.
+	return c.doWithAuth("", count, access, redirectedReq, append(via, req))
 }
 
 // getCreds fills the authorization header for the given request if possible,
